@@ -377,7 +377,10 @@ def get_blank_header_info(self, seismic, header_detection):
     if seismic.structured and not self.is_2d:
         n_traces = H_reglen
     if header_detection == 'heuristic':
-        return HeaderwordInfo(n_traces=n_traces, seismicfile=seismic, header_detection=header_detection)
+        header_info = HeaderwordInfo(n_traces=n_traces, seismicfile=seismic, header_detection=header_detection)
+        if seismic.filetype == Filetype.ZGY:
+            ANY_BLOCK
+        return header_info
     elif header_detection in ['thorough', 'exhaustive']:
         return HeaderwordInfo(n_traces=n_traces, variant_header_list=segyio.TraceField.enums()[H_lo:H_hi],
                               header_detection=header_detection)
